@@ -186,6 +186,14 @@ func fmtMember(idx int, await uint64, haveAwait bool, subs []uint64, ret string)
 
 const patience = 15 * time.Second
 
+// recoverTo turns a panic of the goroutine running the real submitter into its result (a panic
+// outside hx's own goroutine would kill the whole harness process).
+func recoverTo(done chan error) {
+	if e := recover(); e != nil {
+		done <- fmt.Errorf("PANIC %v", e)
+	}
+}
+
 func relayCfg(n int, step uint64) *beaconchain.Config {
 	if step == localStep() {
 		// the real GetConfig of the local chain (its own timeout formula); cached per size
@@ -226,6 +234,8 @@ func relayErrClass(err error) string {
 		return "timeout"
 	case strings.Contains(err.Error(), "submit failed"):
 		return "suberr"
+	case strings.HasPrefix(err.Error(), "PANIC"):
+		return "PANIC"
 	}
 	return "other"
 }
@@ -236,6 +246,7 @@ func relayMember(cfg *beaconchain.Config, idx int, entryBytes []byte, start uint
 	subCh, toCh := make(chan uint64), make(chan uint64)
 	done := make(chan error, 1)
 	go func() {
+		defer recoverTo(done)
 		done <- entry.VerifC47SubmitRelayEntry(nolog{}, ch, bc, group.MemberIndex(idx), entryBytes,
 			[]byte{1}, start, subCh, toCh)
 	}()
@@ -297,6 +308,8 @@ func bdkgErrClass(err error) string {
 		return "err:sigs"
 	case strings.Contains(err.Error(), "already submitted"):
 		return "err:reg"
+	case strings.HasPrefix(err.Error(), "PANIC"):
+		return "PANIC"
 	}
 	return "err:other"
 }
@@ -314,6 +327,7 @@ func bdkgMember(cfg *beaconchain.Config, idx int, start uint64, nsigs int, reg b
 	ch := &fakeBeacon{cfg: cfg, now: start, reg: reg}
 	done := make(chan error, 1)
 	go func() {
+		defer recoverTo(done)
 		sm := dkgresult.NewSubmittingMember(nolog{}, group.MemberIndex(idx))
 		done <- sm.SubmitDKGResult(&beaconchain.DKGResult{GroupPublicKey: []byte{7}}, sigMap(nsigs), ch, bc, start)
 	}()
